@@ -123,10 +123,14 @@ class C17(Check):
         if cls == "Octree":
             res.label("octree:explicit-records" if create.get("octree_cells") is not None else "octree:default")
 
+        truth = {"int": int, "np": np.bool_}.get(create.pop("vertical_as", "bool"), bool)
         kwargs = {}
         for key, val in create.items():
             if val is None:
                 continue
+            if key == "vertical":
+                val = truth(val)
+                res.label(f"vertical-as:{type(val).__name__}")
             if key.endswith("delimiters"):
                 val = np.asarray(val, dtype=float)
             elif key == "octree_cells":
@@ -167,6 +171,8 @@ class C17(Check):
                         setattr(obj, attr, np.asarray(value, dtype=int).reshape((-1, 4)))
                     elif attr == "origin":
                         setattr(obj, attr, [float(v) for v in value])
+                    elif attr == "vertical":
+                        setattr(obj, attr, truth(value))
                     else:
                         setattr(obj, attr, value)
                 except Exception as exc:
@@ -349,6 +355,23 @@ class C17(Check):
                     continue
                 source = ("labels", list(op["labels"]))
                 res.label("set:parts")
+                res.count("setter_calls")
+            elif kind == "reassign_parts":
+                # the labels the object reports are assigned back (read-modify-assign with nothing modified): from
+                # then on the segments are the ones derived from those labels
+                try:
+                    current = np.asarray(obj.parts)
+                    obj.parts = np.array(current, dtype="int32")
+                except Exception as exc:
+                    res.count("op_error")
+                    res.label(f"op_error:reassign_parts:{type(exc).__name__}")
+                    continue
+                if len(current) != n:
+                    continue  # reported by read_parts
+                if not geom.chain_ordered(expected_cells()):
+                    res.label("curve:parts-reassigned-over-non-chain-cells")
+                source = ("labels", [int(v) for v in current])
+                res.label("set:parts-reassigned")
                 res.count("setter_calls")
             elif kind == "set_cells":
                 try:
